@@ -59,6 +59,13 @@ check("C07", "model_checking",
       "Trusted: the reference resolver (innermost scope, then host chain with local-or-use-associated names per level) and the program skeleton in checks/c07.py. Quick tier bounds subsets to size <= 3; thorough enumerates all subsets.",
       "bounded-exhaustive enumeration of name-placement subsets against a reference scoping resolver", "DESIGN.md 5/C07")
 
+check("C08", "model_checking",
+      "Complete enumeration of executable parts generated from a statement grammar (39 statement forms) x expression alphabet (18 atoms, nested to depth 2 by 5 wrappers) "
+      "x 4 kinds of calling unit (thorough: both expression slots jointly, and all ordered pairs of statement forms); the expected call set is derived from the abstract "
+      "statement and compared (extra / missing / duplicated / unresolved) with unit.calls produced by the real parser and correlate().",
+      "Trusted: the statement/expression tables in checks/c08.py and their declared call sets. Names equal to intrinsics/keywords are not generated. One genuine defect (computed GOTO inside IF) is a listed known finding.",
+      "bounded-exhaustive enumeration of statement sequences against call sets from the abstract model", "DESIGN.md 5/C08")
+
 ALL = [f"C{i:02d}" for i in range(1, 21)]
 PENDING_REASON = "check not built yet in this round (planned: see DESIGN.md section 5); will be claimed once its exhaustive check exists"
 
